@@ -121,8 +121,10 @@ def spec_points(spec):
 
 
 def spec_size(specs):
-    xs = [p[0] for s in specs for p in spec_points(s)] + [0.0]
-    ys = [p[1] for s in specs for p in spec_points(s)] + [0.0]
+    xs = [p[0] for s in specs for p in spec_points(s)]
+    ys = [p[1] for s in specs for p in spec_points(s)]
+    if not xs:
+        return 1e-300
     r = 0.0
     for s in specs:
         if s[0] == 'A':
